@@ -203,7 +203,7 @@ def check(prop_id, tier, seed):
             for t, f in zip(tasks, futs):
                 r = f.result()
                 r["kind"] = t["kind"]
-                r["name"] = t["task"]
+                r["name"] = t.get("name", t["task"])
                 r["clause"] = t.get("clause")
                 task_results.append(r)
     for r in task_results:
